@@ -5,6 +5,7 @@ import QuantemModel.Lemmas.RadonSymmetry
 import QuantemModel.Lemmas.RadonLists
 import QuantemModel.Lemmas.RadonPadSpec
 import QuantemModel.Lemmas.RadonFilterSk
+import QuantemModel.Lemmas.Radon180
 /-!
 C07 — the torch Radon transform / filtered back-projection (Model/Radon.lean: `radonTorch*`,
 `fourierFilterTorch`, `iradonTorch`) is the same real function as the scikit-image reference
@@ -398,5 +399,44 @@ example : radonTorchAt pin 2 (0 : ℝ) 1 = 1 := by
   have hr : List.range 2 = [0, 1] := by decide
   rw [hr]
   simp [masked, inDisc, pin]
+
+/-! ## 5. The half turn, exactly -/
+
+/-- **radon_180**: at 180° every sample is a grid point — the pixel reflected through the centre
+`(N//2, N//2)`; no interpolation (reference, every size). -/
+theorem radon_180 (f : Int → Int → ℝ) (N : Nat) (x : Nat) :
+    radonSkAt f N (180 : ℝ) x
+      = ((List.range N).map fun y : Nat =>
+          f (2 * ((N / 2 : Nat) : ℤ) - (y : ℤ)) (2 * ((N / 2 : Nat) : ℤ) - (x : ℤ))).sum :=
+  radonSkAt_180 f N x
+
+/-- **radon_180_odd**: odd `N` — the 180° projection is the 0° projection flipped, for both
+implementations. -/
+theorem radon_180_odd (f : Int → Int → ℝ) (N : Nat) (hN : 2 ≤ N) (hodd : N % 2 = 1) (x : Nat) (hx : x < N) :
+    radonSkAt f N (180 : ℝ) x = radonSkAt f N (0 : ℝ) (N - 1 - x) ∧
+    radonTorchAt f N (180 : ℝ) x = radonTorchAt f N (0 : ℝ) (N - 1 - x) :=
+  ⟨radonSkAt_180_odd f N hodd x hx, radonTorchAt_180_odd f N hN hodd x hx⟩
+
+/-- **radon_180_even**: even `N` — the flip is shifted by one bin (`x ↦ N - x`; bin 0 reads column
+`N`, outside the image) and by one row (row 0 is not summed, row `N` is): the reference for any
+accessor, the torch port with its disc mask (row `N` is masked to zero). -/
+theorem radon_180_even (f : Int → Int → ℝ) (N : Nat) (hN : 2 ≤ N) (heven : N % 2 = 0) (x : Nat) (hx : x ≤ N) :
+    radonSkAt f N (180 : ℝ) x
+      = radonSkAt f N (0 : ℝ) (N - x) - f 0 ((N - x : Nat) : ℤ) + f (N : ℤ) ((N - x : Nat) : ℤ) ∧
+    radonTorchAt f N (180 : ℝ) x
+      = radonTorchAt f N (0 : ℝ) (N - x) - masked f N 0 ((N - x : Nat) : ℤ) :=
+  ⟨radonSkAt_180_even f N heven x hx, radonTorchAt_180_even f N hN heven x hx⟩
+
+/-- `radon_180_even_flip_counterexample` (N = 2, bright pixel (0,1)): the "mirrored 0° projection"
+shortcut is wrong for even sizes — bin 0 at 180° is 0, the flipped 0° projection gives 1. -/
+theorem radon_180_even_flip_counterexample :
+    radonTorchAt pin 2 (180 : ℝ) 0 = 0 ∧ radonTorchAt pin 2 (0 : ℝ) (2 - 1 - 0) = 1 := by
+  have hr : List.range 2 = [0, 1] := by decide
+  constructor
+  · rw [(radon_180_even pin 2 (by norm_num) (by norm_num) 0 (by norm_num)).2,
+      proj0_colsum pin 2 (by norm_num), hr]
+    simp [masked, inDisc]
+  · rw [proj0_colsum pin 2 (by norm_num), hr]
+    simp [masked, inDisc, pin]
 
 end QuantemModel.Props.C07
